@@ -3,6 +3,8 @@ package main
 import (
 	"encoding/json"
 	"fmt"
+	"os"
+	"path/filepath"
 	"regexp"
 	"sort"
 	"strings"
@@ -155,6 +157,20 @@ func c12Eval(w *Worker, c *GCase) {
 	if res.Fuel {
 		w.Violate("C12|unusable-grammar-not-terminating|"+key, fmt.Sprintf("grammar [%s] is unusable but yaccgo does not terminate on it", key), c, detail)
 		return
+	}
+	// the two generators must refuse it as well (they run the same front end, but each has its own
+	// error path to the caller)
+	for _, lang := range []string{"go", "typescript"} {
+		out := filepath.Join(w.Scratch, fmt.Sprintf("c12-%d.out", w.Shard))
+		os.Remove(out)
+		gr := ygo.Generate(lang, text, out, ygo.Options{Fuel: fuel})
+		_, statErr := os.Stat(out)
+		os.Remove(out)
+		w.Count("generator_refusals_checked", 1)
+		if gr.Err == nil && gr.Panic == "" && !gr.Fuel {
+			w.Violate("C12|unusable-grammar-accepted-by-generator|"+lang+"|"+key, fmt.Sprintf("grammar [%s] is unusable (undefined %v, ruleless %v, unproductive %v): ParseAndBuild refuses it, but `generate %s` returns without an error (output file written: %v)", key, g.Undefined, g.NoRuleNT, unprod, lang, statErr == nil), c, detail)
+			return
+		}
 	}
 	if res.RuntimeErr || res.Diag() == "" {
 		w.Violate("C12|refused-without-reason|"+key, fmt.Sprintf("grammar [%s] is refused by a crash, not a diagnostic: %s", key, res.Diag()), c, detail)
